@@ -19,22 +19,28 @@ def parse_policy(s):
         # a policy BUILT with the constructors (prefix notation): its DNF is the plain distribution, without the
         # simplifications the parser and the operators apply (Broadcast = the empty clause, kept where it stands)
         t = s[1:].split(','); pos = [0]
-        def go():
+        def go():            # -> (clauses, "the tree IS the node Broadcast")
             if pos[0] >= len(t): return None
             k = t[pos[0]]; pos[0] += 1
-            if k == 'B': return [[]]
+            if k == 'B': return [[]], True
             if k == 'T':
                 if pos[0] + 1 >= len(t): return None
                 try: d, n = bytes.fromhex(t[pos[0]]).decode(), bytes.fromhex(t[pos[0] + 1]).decode()
                 except Exception: return None
-                pos[0] += 2; return [[(d, n)]]
-            if k in ('A', 'O'):
+                pos[0] += 2; return [[(d, n)]], False
+            if k in ('A', 'O', 'a', 'o'):
                 l = go(); r = go()
                 if l is None or r is None: return None
-                return [a + b for a in l for b in r] if k == 'A' else l + r
+                (l, lb), (r, rb) = l, r
+                # 'a' / 'o' are the operators `&` / `|`: an operand that IS Broadcast is dropped from a conjunction and
+                # absorbs a disjunction (tested on the tree, not on its meaning)
+                if k == 'a' and lb: return r, rb
+                if k == 'a' and rb: return l, lb
+                if k == 'o' and (lb or rb): return [[]], True
+                return ([a + b for a in l for b in r] if k in 'Aa' else l + r), False
             return None
         r = go()
-        return r if r is not None and pos[0] == len(t) else None
+        return r[0] if r is not None and pos[0] == len(t) else None
     toks = []; i = 0; s = s
     while i < len(s):
         c = s[i]
